@@ -1499,6 +1499,10 @@ def main():
           % (len(info["classes"]), sum(1 for c in info["classes"].values() if c["safe"]),
              sum(1 for c in info["classes"].values() if not c["safe"]), len(info["abstract"]), info["n_defs"],
              "rewritten" if changed else "unchanged"))
+    if "--write-baseline" in sys.argv:
+        base = {n: c["pairs"] for n, c in sorted(info["classes"].items()) if not c["safe"]}
+        (HERE / "static_unsafe_baseline.json").write_text(json.dumps(base, indent=0, sort_keys=True) + "\n")
+        print("baseline written: %d transformations, %d pairs" % (len(base), sum(len(v) for v in base.values())))
     if "-v" in sys.argv:
         for n, c in info["classes"].items():
             if not c["safe"]:
